@@ -424,15 +424,16 @@ func runTagVariants(c *Ctx, base []shapeResult) {
 			continue
 		}
 		bases = append(bases, b)
-		for _, m := range []int{4, 5, 6, 8, 9} {
+		for _, m := range []int{4, 5, 6, 8, 9, 13, 14} {
 			items = append(items, corpusItem{key: fmt.Sprintf("%s + tags%d", b.item.key, m), src: b.item.shape.SourceDeco("s", m, -1), shape: b.item.shape})
 		}
 	}
 	res := cp.runAll(items, false)
 	for i, b := range bases {
-		noisy, untagged, spelled := res[5*i], res[5*i+1], res[5*i+2]
+		noisy, untagged, spelled := res[7*i], res[7*i+1], res[7*i+2]
+		hyphen, marked := res[7*i+5], res[7*i+6]
 		for k, what := range []string{"all types in one grouped declaration, root first", "root struct declared before the structs it uses"} {
-			v := res[5*i+3+k]
+			v := res[7*i+3+k]
 			r.count("TV-source/pairs", 1)
 			key := b.item.key + " " + what
 			switch {
@@ -462,6 +463,18 @@ func runTagVariants(c *Ctx, base []shapeResult) {
 			r.bad("TV-tags", key, "", "without tags the columns are "+programColumns(untagged.text)+", expected the field names "+programColumns(spelled.text))
 		default:
 			r.ok("TV-tags", key, "", "an untagged field's column is named after the field")
+		}
+		r.count("TV-tags/pairs", 1)
+		key = b.item.key + " hyphen in column name"
+		switch {
+		case marked.text == nil:
+			r.undecided("TV-tags", key, "", "parquetgen fails on the struct with marker names: "+oneLine(marked.genOut))
+		case hyphen.text == nil:
+			r.bad("TV-tags", key, "", "parquetgen fails when a column name contains a hyphen: "+oneLine(hyphen.genOut))
+		case !bytes.Equal(normHeader(hyphen.text), bytes.ReplaceAll(normHeader(marked.text), []byte(hyphenMarker), []byte("-"))):
+			r.bad("TV-tags", key, "", "with column names such as `n0-col` the generated program is not the one for ordinary names with the hyphen put in (columns "+programColumns(hyphen.text)+", expected "+strings.Replace(programColumns(marked.text), hyphenMarker, "-", -1)+"): only the tag \"-\" alone excludes a field")
+		default:
+			r.ok("TV-tags", key, "", "a hyphen inside a column name is part of the name")
 		}
 	}
 	r.floor("TV-tags/pairs", 40, "quick tier sample")
@@ -532,8 +545,8 @@ func c14Items(cp *corpus, tier string, seed int64) (good []shapeResult, vars []c
 	for i := range good {
 		b := &good[i]
 		depth := b.item.shape.depth()
-		for _, mode := range []int{1, 2, 3, 7, 11} {
-			mn := map[int]string{1: "excluded-fields", 2: "embedded", 3: "multiname", 7: "excluded-embedded", 11: "multiname-hidden-first"}[mode]
+		for _, mode := range []int{1, 2, 3, 7, 11, 12} {
+			mn := map[int]string{1: "excluded-fields", 2: "embedded", 3: "multiname", 7: "excluded-embedded", 11: "multiname-hidden-first", 12: "embedded-pointer"}[mode]
 			levels := []int{-1}
 			for l := 0; l <= depth; l++ {
 				levels = append(levels, l)
@@ -541,7 +554,7 @@ func c14Items(cp *corpus, tier string, seed int64) (good []shapeResult, vars []c
 			if depth == 0 {
 				levels = []int{-1}
 			}
-			if mode == 7 || mode == 11 {
+			if mode == 7 || mode == 11 || mode == 12 {
 				// root struct only: nested structs are built with positional literals (D9, known), which any extra field breaks
 				levels = []int{0}
 			}
